@@ -45,6 +45,11 @@ var UnicodePool = []string{
 	"tar zip", "Ⅻ", "ǆ", "ﬀ", "İ", "ı", "ſ", "K", // the last four are case-irregular (labelled hostile)
 }
 
+// CaseLength holds strings whose lower-case form has a different byte length (shorter:
+// U+212A, U+212B, U+1E9E, U+0130; longer: U+023A, U+023E) - hostile to code that slices a
+// lower-cased text with offsets taken from the original.
+var CaseLength = []string{"\u212a\u212a\u212a", "\u212b\u212b", "\u1e9e\u1e9e\u1e9e", "\u0130\u0130\u0130\u0130", "\u023a\u023a\u023a", "\u023e\u023e", "\u212aill \u212a", "\u212a8s"}
+
 // CaseIrregular reports whether s contains a rune whose simple-fold orbit is not
 // case-regular (members lower-case differently): U+0130, U+0131, U+017F, U+212A, ...
 func CaseIrregular(s string) bool {
@@ -150,6 +155,13 @@ func Command(o CmdOpts) *rapid.Generator[database.Command] {
 			Keywords:    rapid.SliceOfN(TextOf(w, 1, 2), 0, 4).Draw(t, "kw"),
 			Tags:        rapid.SliceOfN(w, 0, 2).Draw(t, "tags"),
 		}
+		if o.Irregular && rapid.IntRange(0, 11).Draw(t, "case-length-cmd") == 0 {
+			// a command made of letters whose lower-case form changes byte length, with little else
+			c.Command = rapid.SampledFrom(CaseLength).Draw(t, "case-length")
+			if rapid.Bool().Draw(t, "bare") {
+				c.Description, c.Keywords, c.Tags = rapid.SampledFrom([]string{"", "x"}).Draw(t, "short-desc"), nil, nil
+			}
+		}
 		if !o.NoBlank && rapid.IntRange(0, 23).Draw(t, "blank-cmd") == 0 {
 			c.Command = rapid.SampledFrom([]string{"", " ", "  "}).Draw(t, "blank") // well-formed but blank command line
 		}
@@ -206,11 +218,15 @@ func DB(t *rapid.T, o CmdOpts, classes []int) ([]database.Command, DBClass) {
 			k := rapid.IntRange(1, 5).Draw(t, "copies")
 			for i := 0; i < k; i++ {
 				c := b
-				switch rapid.IntRange(0, 3).Draw(t, "tie-variant") {
+				switch rapid.IntRange(0, 4).Draw(t, "tie-variant") {
 				case 1:
 					c.Niche = fmt.Sprintf("n%d", i) // differs only in a non-searched field
 				case 2:
 					c.Command = strings.ReplaceAll(c.Command, "-", "_") // like qm move_disk / qm move-disk
+				case 3:
+					if i%2 == 1 {
+						c.Tags = []string{fmt.Sprintf("owntag%d", i), "backup"} // same text, different tags (a notebook copy of a built-in entry)
+					}
 				}
 				out = append(out, c)
 			}
@@ -392,7 +408,7 @@ func Options(t *rapid.T, s OptSpec) database.SearchOptions {
 	} else {
 		o.AllPlatforms = rapid.IntRange(0, 3).Draw(t, "all-platforms") == 0
 		if rapid.Bool().Draw(t, "platforms?") {
-			o.Platforms = rapid.SliceOfN(rapid.SampledFrom([]string{"linux", "windows", "macos", "Windows", "darwin", "cross-platform", "freebsd", "powershell"}), 1, 2).Draw(t, "platforms")
+			o.Platforms = rapid.SliceOfN(rapid.SampledFrom([]string{"linux", "windows", "macos", "Windows", "darwin", "cross-platform", "freebsd", "powershell", "", "w", "lin", "mac", " linux"}), 1, 2).Draw(t, "platforms")
 		}
 		o.NoCrossPlatform = rapid.IntRange(0, 2).Draw(t, "no-cross") == 0
 	}
@@ -404,7 +420,14 @@ func Options(t *rapid.T, s OptSpec) database.SearchOptions {
 		n := rapid.IntRange(1, 3).Draw(t, "boost-n")
 		o.ContextBoosts = map[string]float64{}
 		for i := 0; i < n; i++ {
-			o.ContextBoosts[rapid.SampledFrom(words).Draw(t, "boost-word")] = rapid.SampledFrom([]float64{1, 1.3, 1.5, 2, 3}).Draw(t, "boost-factor")
+			w := rapid.SampledFrom(words).Draw(t, "boost-word")
+			o.ContextBoosts[w] = rapid.SampledFrom([]float64{1, 1.3, 1.5, 2, 3}).Draw(t, "boost-factor")
+			// real boost maps also hold Makefile targets and npm script names: compound keys
+			// and case variants that share a word with another key
+			if rapid.IntRange(0, 2).Draw(t, "boost-variant") == 0 {
+				v := rapid.SampledFrom([]string{strings.ToUpper(w), w + "-build", "run:" + w, w + " all", strings.Title(w)}).Draw(t, "boost-variant-key") //nolint:staticcheck
+				o.ContextBoosts[v] = rapid.SampledFrom([]float64{1.1, 1.3, 2, 2.5}).Draw(t, "boost-variant-factor")
+			}
 		}
 	}
 	o.TopTermsCap = rapid.SampledFrom([]int{0, 0, 1, 3, 10, 20}).Draw(t, "terms-cap")
